@@ -625,6 +625,8 @@ def _(rnd, g, tier):
 class C20(object):
     id = "C20"
     engine = "simomp"
+    time_keys = {"steps": "scheduler steps (one per instrumented access, GOMP entry or allocator call)"}
+    fault_keys = ["switches", "realloc_moved", "realloc_stay", "alloc", "free", "parallel_runs", "concurrent_caller_runs"]
     tiers = {"quick": {"runs": 40000, "budget_s": 60, "selftest_every": 40, "fresh_selftest": 16},
              "thorough": {"runs": 3000000, "budget_s": 800, "selftest_every": 400, "fresh_selftest": 32}}
     rule = ("one run = (kernel from the pyf, arguments drawn to satisfy its documented preconditions with boundary "
